@@ -93,6 +93,28 @@ func (o op) String() string {
 	return fmt.Sprintf("Get(k%d)", o.k)
 }
 
+// handed records every expanded key object that crossed the cache boundary in the current execution: objects the
+// harness handed to Put (caller-owned: the cache may keep the pointer but must never write through it) and objects Get
+// returned (they are used after the lock is released, so they must keep describing the key they were returned for).
+type handedKey struct {
+	p   *ed25519.ExpandedPublicKey
+	k   int
+	how string
+}
+
+var handed []handedKey
+
+// checkHanded returns a description of the first object that no longer holds its key.
+func checkHanded() string {
+	for _, h := range handed {
+		if h.p.CompressedY() != keys[h.k] {
+			c := h.p.CompressedY()
+			return fmt.Sprintf("the expanded key object %s for key %d now holds key %x (an object that left the cache, or caller-owned memory, was overwritten in place)", h.how, h.k, c[:4])
+		}
+	}
+	return ""
+}
+
 // apply runs op on the real cache; returns index of the key whose expansion came back (-1 nil, -2 foreign).
 func apply(c cache.Cache, o op) int {
 	// the key is handed over in a scratch variable that the caller overwrites straight after the call: the cache
@@ -105,7 +127,11 @@ func apply(c cache.Cache, o op) int {
 		}
 	}()
 	if o.put {
-		c.Put(kp, exps[o.k])
+		// a private copy per call: whatever the cache does with the object cannot leak into another execution
+		e := new(ed25519.ExpandedPublicKey)
+		*e = *exps[o.k]
+		handed = append(handed, handedKey{e, o.k, "handed to Put"})
+		c.Put(kp, e)
 		return -1
 	}
 	r := c.Get(kp)
@@ -113,6 +139,9 @@ func apply(c cache.Cache, o op) int {
 		return -1
 	}
 	if i, ok := kidx[r.CompressedY()]; ok {
+		if i == o.k {
+			handed = append(handed, handedKey{r, o.k, "returned by Get"})
+		}
 		return i
 	}
 	return -2
@@ -163,6 +192,7 @@ func seqClosure(c *mc.Ctx) {
 				// successor = replay of the shortest history on a fresh real cache + one operation
 				real := cache.NewLRUCache(g.cap)
 				m := &model{cap: g.cap}
+				handed = handed[:0]
 				for _, p := range h {
 					got := apply(real, p)
 					want := -1
@@ -193,6 +223,9 @@ func seqClosure(c *mc.Ctx) {
 				ord, pr := realState(real)
 				if len(pr) > 0 {
 					w.Fail("lruCache/invariant", fmt.Sprintf("cap=%d history %v: %s", g.cap, hist, strings.Join(pr, "; ")), cas)
+				}
+				if msg := checkHanded(); msg != "" {
+					w.Fail("lruCache/object-overwritten", fmt.Sprintf("cap=%d history %v: %s", g.cap, hist, msg), cas)
 				}
 				if fmt.Sprint(ord) != m.key() {
 					w.Fail("lruCache/lru-order", fmt.Sprintf("cap=%d history %v: recency order %v, model %v", g.cap, hist, ord, m.order), cas)
@@ -392,6 +425,7 @@ func exploreLRU(c *mc.Ctx, w *mc.W, cp int, prog [][]op, outcomes map[string]boo
 	runOnce := func(prefix []int) *sched.Exec {
 		real = cache.NewLRUCache(cp)
 		recs = recs[:0]
+		handed = handed[:0]
 		bodies := make([]func(e *sched.Exec), len(prog))
 		for t := range prog {
 			t := t
@@ -466,6 +500,10 @@ func exploreLRU(c *mc.Ctx, w *mc.W, cp int, prog [][]op, outcomes map[string]boo
 		}
 		if ok, _ := linearizable(cp, recs, ord); !ok {
 			fail("lruCache/not-linearizable", "no sequential LRU execution explains the call/return history and final state")
+			return true
+		}
+		if msg := checkHanded(); msg != "" {
+			fail("lruCache/object-overwritten", msg)
 		}
 		return true
 	})
